@@ -169,7 +169,7 @@ def build_case(base_viol: list[dict], linter: str, lang: str, main_lines: list[s
         lines.insert(k - 1, indent_of(k) + txt)
         before = [k]
         at = k
-    else:   # repoPattern / linterPattern: nothing inserted
+    else:   # repoPattern / linterPattern / repoDirPattern: nothing inserted
         if sp != "fullId":
             return None
     d = {"form": form, "spelling": sp, "file": 0, "tlinter": linter, "tsub": t["sub"], "olinter": ol, "osub": os_,
@@ -210,7 +210,7 @@ def build_stacked(lines1: list[str], d1: dict, target_line: int, linter: str, su
 
 def names(d: dict, v: dict) -> bool:
     """Python mirror of Ignore.tla Names (diagnosis only; TLC's verdict is authoritative)."""
-    if d["form"] == "repoPattern":
+    if d["form"] in ("repoPattern", "repoDirPattern"):
         return True
     if d["form"] == "linterPattern":
         return v["linter"] == d["tlinter"]
@@ -228,6 +228,8 @@ def names(d: dict, v: dict) -> bool:
 
 def expected(base: list[dict], d: dict) -> list[dict]:
     out = []
+    if d["form"] == "repoDirPattern":
+        return out
     for v in base:
         nl = v["line"] + sum(1 for b in d["before"] if b <= v["line"]) \
             if v["file"] == d["file"] and not v["pinned"] else v["line"]
@@ -250,7 +252,7 @@ def expected(base: list[dict], d: dict) -> list[dict]:
 
 
 def in_scope(d: dict, nl: int) -> bool:
-    if d["form"] in ("repoPattern", "linterPattern"):
+    if d["form"] in ("repoPattern", "linterPattern", "repoDirPattern"):
         return True
     if d["form"] == "sameLine":
         return nl == d["at"]
@@ -325,6 +327,21 @@ def job(j: dict) -> dict:
         drive.write_tree(root, padded)
         (root / main).write_text("\n".join(lines) + "\n")
         cfg = CONFIG
+        if case["form"] == "repoDirPattern":
+            if linter == "file-placement":
+                continue          # its probe rule is written for the file's place at the top of the project
+            import shutil
+            (root / "app" / "generated").mkdir(parents=True, exist_ok=True)
+            for n in names:
+                shutil.move(str(root / n), str(root / "app" / "generated" / n))
+            (root / ".thailintignore").write_text("generated/\n")
+            (root / ".thailint.yaml").write_text(cfg)
+            os.chdir(root)
+            import src.linter_config.ignore as ig
+            ig._CACHED_PARSER = None
+            after = [v for v in lint_all(root, ["app/generated/" + n for n in names])]
+            out.append({"case": case, "d": d, "after": after})
+            continue
         if case["form"] == "repoPattern":
             (root / ".thailintignore").write_text(main + "\n")
         elif case["form"] == "linterPattern":
